@@ -53,7 +53,7 @@ fn join(v: &[usize]) -> String {
 const BASES: [usize; 3] = [0, 1, 2];
 const QUOTES: [usize; 2] = [3, 4];
 
-fn gen_filter(rng: &mut Rng, nex: usize, nins: usize) -> String {
+fn gen_filter(rng: &mut Rng, nex: usize, nins: usize, defs: &[Def]) -> String {
     match rng.below(100) {
         0..=14 => "none".into(),
         15..=42 => {
@@ -77,10 +77,17 @@ fn gen_filter(rng: &mut Rng, nex: usize, nins: usize) -> String {
             format!("ins:{}", join(&v))
         }
         _ => {
+            // mostly underlyings that exist in this engine, sometimes any pair of the asset alphabet
             let mut pairs: Vec<String> = vec![];
+            for d in defs {
+                let p = format!("{}-{}", d.1, d.2);
+                if rng.chance(40) && !pairs.contains(&p) {
+                    pairs.push(p);
+                }
+            }
             for b in BASES {
                 for q in QUOTES {
-                    if rng.chance(35) {
+                    if rng.chance(10) {
                         pairs.push(format!("{b}-{q}"));
                     }
                 }
@@ -162,7 +169,7 @@ fn gen_case(rng: &mut Rng, out: &mut Out, tier: &str) {
     // ---- commands
     let ncmd = rng.range(1, if tier == "thorough" { 6 } else { 4 });
     for _ in 0..ncmd {
-        let f = gen_filter(rng, nex, nins);
+        let f = gen_filter(rng, nex, nins, &defs);
         let cmd = if rng.chance(55) { "cancel_orders" } else { "close_positions" };
         out.line(format!("ev {cmd} {f}"));
         if rng.chance(60) {
